@@ -12,17 +12,24 @@ RULE = ("generated connected, scope-plausible MRSs with the intrinsic-variable p
         "arguments, repeated predicates, shuffled predications and constraints, arbitrary variable numbering; "
         "plus mildly ill-formed MRSs from the C07 generator (for the conversion model only). Compared: the whole "
         "DMRS (top, index, nodes with type/properties/constant, links with role/post, warning count) or "
-        "IndexError. The oracle converts back and checks isomorphism, top/index and the re-conversion fixpoint. "
+        "IndexError; and the whole MRS that mrs.from_dmrs builds from the converted DMRS and from directly written "
+        "DMRSs (arbitrary EQ links, both scopal link kinds, quantifiers). The oracle converts back and checks isomorphism, top/index and the re-conversion fixpoint. "
         "Non-trivial = at least 3 predications; distinct = canonical JSON.")
 EXHAUSTIVE = {"quick": False, "thorough": False}
 EXPLANATION = ("Theorems: one node per predication in order with its attributes; every link of the converted "
                "DMRS is justified by the source (argument to an intrinsic variable with EQ/NEQ by label identity, "
                "handle constraint to the first representative with H, direct label with HEQ, or MOD/EQ between a "
-               "later and the first representative). The round-trip isomorphism and the fixpoint of re-conversion "
-               "are decided by the oracle (is_isomorphic on the real outputs), not proved.")
+               "later and the first representative); mrs.from_dmrs yields one predication per node in order "
+               "with predicate, constant, the label of the node's scope class and its intrinsic variable, "
+               "only qeq constraints and a top handle qeq the top node's scope. The round-trip isomorphism "
+               "and the fixpoint of re-conversion are decided by the oracle (is_isomorphic on the real "
+               "outputs), not proved.")
 ASSUMPTIONS = [
-    "mrs.from_dmrs is not modelled; the round trip is checked on the implementation by the oracle using "
-    "mrs.is_isomorphic (C06) after removing unexpressed arguments and individual constraints",
+    "scope.conjoin picks the label of a conjoined scope from a Python set: the labels chosen by the "
+    "implementation are an input of the from_dmrs model (checked to be members of their classes); the "
+    "theorem holds for every such choice",
+    "the round trip is checked on the implementation by the oracle using mrs.is_isomorphic (C06) after "
+    "removing unexpressed arguments and individual constraints",
     "representatives use the default priority",
 ]
 TRUSTED = []
@@ -30,11 +37,13 @@ LEVEL_TEXT = ("Proof (Coq, no axioms) about the model of dmrs.from_mrs: nodes ar
               "order, with predicate, constant, type and properties of the intrinsic variable; every link is "
               "justified by the source MRS in one of the four documented ways. The whole conversion (incl. "
               "representatives, top/index selection, warnings, IndexError on representative-less scopes) is tied to "
-              "the code by kernel-checked correspondence; MRS->DMRS->MRS isomorphism, preservation of top/index and "
+              "the code by kernel-checked correspondence, and so is mrs.from_dmrs (DMRS.scopes, arguments, "
+              "quantifier pairing, VariableFactory numbering, _fill_variables) for which C04_from_dmrs proves "
+              "the structure of the result; MRS->DMRS->MRS isomorphism, preservation of top/index and "
               "the re-conversion fixpoint are checked on every generated structure by the oracle.")
-LEVEL_NOTE = ("Partial: mrs.from_dmrs and the round-trip isomorphism are not modelled/proved (oracle only). F8 "
+LEVEL_NOTE = ("Partial: the round-trip isomorphism and the re-conversion fixpoint are not proved (oracle only). F8 "
               "(representative-less scope of a 'well-formed' MRS raises IndexError) is a known finding.")
-TECHNIQUE = "Coq proof (link justification by construction) + kernel-checked correspondence + round-trip oracle"
+TECHNIQUE = "Coq proof (link justification, structure of from_dmrs) + kernel-checked correspondence of both conversions + round-trip oracle"
 DESIGN_REF = "DESIGN.md section 6, C04"
 
 
